@@ -97,6 +97,10 @@ type c01Call struct {
 	// Big > 0: string and byte vector arguments / results are about that many bytes (packets beyond the read buffers)
 	Big     int  `json:"big,omitempty"`
 	NoModel bool `json:"no_model,omitempty"`
+	// Slow > 0: the implementation takes that many ms; Timeout > 0: the caller's proxy waits that many ms for this call.
+	// Slow > Timeout: the call must end with a client-side timeout (a step of a call history; monitors only)
+	Slow    int `json:"slow_ms,omitempty"`
+	Timeout int `json:"timeout_ms,omitempty"`
 	// DeepPrior > 0: out variables of type Node hold a chain nested that many structs deep (2n-1 levels on the wire)
 	DeepPrior int `json:"deep_prior,omitempty"`
 	// observations, filled in by the child
@@ -129,6 +133,8 @@ type c01Case struct {
 	// Stage: cases of one stage run in ONE child in order; the child registers the filters a case has beyond its
 	// predecessor's just before running it (filters registered between calls)
 	Stage string `json:"stage,omitempty"`
+	// ObjQueueMax > 0: client setting objqueuemax of the child that runs this stage (calls of one proxy not yet settled)
+	ObjQueueMax int `json:"objqueuemax,omitempty"`
 	// Seg: re-segmentation mode of the relay while this case runs (see c01Seg)
 	Seg int `json:"seg,omitempty"`
 	Died  string    `json:"died,omitempty"`
@@ -349,6 +355,40 @@ func c01Gen(tier string, rng *rand.Rand) []c01Case {
 		}
 	}
 	out = append(out, c01StagedCases(tier, rng)...)
+	out = append(out, c01HistoryCases(tier, rng)...)
+	return out
+}
+
+// c01HistoryCases: call HISTORIES on one proxy under a small objqueuemax. Transparency is stated per call; what ties it
+// to the proxy's state (queueLen, the pending table, the connection) is that after ANY history of settled calls -
+// timed out on the client (T), failed in the implementation (E), one-way (W), successful (S) - and a drain wait, an
+// ordinary call is still transparent: it reaches the implementation once and returns its results. One child per history.
+func c01HistoryCases(tier string, rng *rand.Rand) []c01Case {
+	histories := []string{"TTTTTSSWSES", "STETWTSTTSWES"}
+	if tier == "thorough" {
+		histories = append(histories, "TTTTTTTTTTTTSSS", "WTWTWTWTWTSES", "ETETETETETSWS", "SSSSTSSSSTSSSSTSSSSTSSSSTSS")
+	}
+	var out []c01Case
+	for hi, h := range histories {
+		name := fmt.Sprintf("history-%d-%s", hi, h)
+		for _, st := range h {
+			c := c01RandCall(rng, []string{"fInt", "fString", "fItem", "noArgs", "fMapSS"}[rng.Intn(5)])
+			c.ErrKind, c.OneWay = 0, false
+			if c.NOpts >= 1 && c.CtxKind == 0 {
+				c.CtxKind = 1
+			}
+			switch st {
+			case 'T':
+				c.Slow, c.Timeout, c.NoModel = 500, 120, true
+			case 'E':
+				c.ErrKind, c.ErrCode, c.ErrMsg = 1, 78, B("history step failed")
+			case 'W':
+				c = c01RandCall(rng, "note")
+				c.OneWay, c.ErrKind = true, 0
+			}
+			out = append(out, c01Case{Cfg: c01Cfg{}, Stage: name, ObjQueueMax: 3, Calls: []c01Call{c}})
+		}
+	}
 	return out
 }
 
